@@ -407,7 +407,7 @@ func (rw *remoteUnit) monitorRemoteStdout(mw *utils.JobContext) {
 		status := rw.Status()
 		diskStdoutSize := stdoutSize(rw.UnitDir())
 		remoteStdoutSize := status.StdoutSize
-		if IsComplete(status.State) && diskStdoutSize >= remoteStdoutSize {
+		if isFinished(status.State) && diskStdoutSize >= remoteStdoutSize {
 			return
 		} else if diskStdoutSize < remoteStdoutSize {
 			conn, reader := rw.getConnection(mw)
